@@ -120,18 +120,48 @@ def stencils(path):
     return out
 
 
+def groups_loop(path):
+    """Mesh.makeRegions: which region does a y-group start from when no remaining region has lower None?"""
+    fn = get_function(path, "Mesh.makeRegions")
+    loops = [n for n in ast.walk(fn) if isinstance(n, ast.For) and src_of(n.iter) == "enumerate(region_list)"]
+    if len(loops) != 1:
+        raise TranslationError("makeRegions: cannot find the `for i, first_region in enumerate(region_list)` loop")
+    lp = loops[0]
+    if src_of(lp.target) not in ("(i, first_region)", "i, first_region"):
+        raise TranslationError(f"makeRegions: loop target changed: {src_of(lp.target)}")
+    body = [s for s in lp.body if not (isinstance(s, ast.Expr) and isinstance(s.value, ast.Constant))]
+    if not (len(body) == 1 and isinstance(body[0], ast.If) and src_of(body[0].test) == "first_region.connections['lower'] is None"
+            and len(body[0].body) == 1 and isinstance(body[0].body[0], ast.Break) and not body[0].orelse):
+        raise TranslationError("makeRegions: the start-region loop body changed")
+    orelse = sorted(src_of(s) for s in lp.orelse if not (isinstance(s, ast.Expr) and isinstance(s.value, ast.Constant)))
+    if not orelse:
+        pick_last = True
+    elif orelse in (["first_region = region_list[0]", "i = 0"], ["i, first_region = (0, region_list[0])"], ["(i, first_region) = (0, region_list[0])"]):
+        pick_last = False
+    else:
+        raise TranslationError(f"makeRegions: unexpected for-else: {orelse}")
+    src = "\n".join(l.strip() for l in ast.unparse(fn).splitlines())
+    for frag in ["next_region.yGroupIndex = len(group)", "group.append(next_region)", "region_list.pop(i)", "next_region = next_region.getNeighbour('upper')",
+                 "if next_region is None or group.count(next_region) > 0:", "i = region_list.index(next_region)", "region_list = list(self.regions.values())"]:
+        if frag not in src:
+            raise TranslationError(f"makeRegions: expected statement missing: {frag}")
+    return pick_last
+
+
 def emit(repo):
     path = os.path.join(repo, "hypnotoad/core/mesh.py")
     fs = fill_slices(path)
+    pick_last = groups_loop(path)
     init_reversal(path)
     st = stencils(path)
     L = ["(* GENERATED by /verif/translate/slices.py from MeshRegion.fillRZ -- do not edit.  (contour start, point start) of each location *)",
          "Definition fill_centre : nat * nat := (%d, %d)." % fs["centre"], "Definition fill_xlow : nat * nat := (%d, %d)." % fs["xlow"],
-         "Definition fill_ylow : nat * nat := (%d, %d)." % fs["ylow"], "Definition fill_corners : nat * nat := (%d, %d)." % fs["corners"], ""]
-    return "\n".join(L), dict(fill=fs, stencils=st)
+         "Definition fill_ylow : nat * nat := (%d, %d)." % fs["ylow"], "Definition fill_corners : nat * nat := (%d, %d)." % fs["corners"],
+         "(* Mesh.makeRegions: a y-group with no open end starts at the LAST remaining region (true) or at the first (false) *)",
+         "Definition makeRegions_pick_last : bool := %s." % ("true" if pick_last else "false"), ""]
+    return "\n".join(L), dict(fill=fs, stencils=st, pick_last=pick_last)
 
 
 if __name__ == "__main__":
     text, info = emit(sys.argv[1] if len(sys.argv) > 1 else "/repo")
     print(text)
-    print(info)
